@@ -5,6 +5,7 @@ CONSTANTS
   GuardCombine = TRUE
   GuardControl = TRUE
   SafeDecode = TRUE
+  GuardEndpoint = TRUE
   NoSigpipe = FALSE
   MaxHist = 4
 INVARIANTS C35_NoThrow
